@@ -1,16 +1,16 @@
 #!/bin/bash
-# build.sh Cxx — extract PV.Extract.Dxx.dispatch_line and build the driver
-# /verif/ocaml/gen/Cxx/pvmodel. Directives in force: ExtrOcamlBasic,
+# build.sh Dxx — extract PV.Extract.Dxx.dispatch_line and build the driver
+# /verif/ocaml/gen/Dxx/pvmodel. Directives in force: ExtrOcamlBasic,
 # ExtrOcamlString (-> ExtrOcamlChar). nat/N/Z/positive stay inductive.
 set -e
-id="$1"; n="${id#C}"
+id="$1"   # dispatch module name, e.g. D15
 here="$(cd "$(dirname "$0")" && pwd)"
 coqdir="$here/../coq"
 out="$here/gen/$id"
 mkdir -p "$out"; cd "$out"
 cat > extract.v <<EOF
 From Coq Require Extraction ExtrOcamlBasic ExtrOcamlString.
-From PV Require Import Extract.D$n.
+From PV Require Import Extract.$id.
 Extraction Language OCaml.
 Extraction "model.ml" dispatch_line.
 EOF
